@@ -1,0 +1,5 @@
+//go:build !verif
+
+package pugjs
+
+func verifYield(string) {}
